@@ -70,7 +70,7 @@ ASSUMPTIONS = [
     'the sizes explored per decoder are chosen by a concrete probe (constant fillers 00/01/FF at every size up to the cap; a size is kept when the '
     'refusal wording or the decoded shape changes there): the probe selects bounds, it decides nothing',
     'ADD-PATH path identifier concrete (00 00 00 01) and only for the INET family of NLRI classes (the others do not read one)',
-    'per (decoder, variant, size) path budget (quick 120, thorough 2500; free bodies 3000 / 60000 per size): beyond it the remaining paths of that size '
+    'per (decoder, variant, size) path budget (quick 120, thorough 600; free bodies 3000 / 20000 per size; safety net: a decoder of a group gets at most its share of 80 % of the unit time limit): beyond it the remaining paths of that size '
     'are cut, recorded as class budget-cut:* and the unit is reported truncated',
 ]
 BOUNDS = {
@@ -83,7 +83,7 @@ BOUNDS = {
                           'sizes each (cap 12..72 octets), declared length L or L+1; TLV / NLRI loops with 2 and 3 well-sized elements',
               'unusual': 'k = 1, 3, 6 symbolic unknown attributes (depth law); k solved by z3 for msg_size 4096 and 65535; k = 64, 200, 400 concrete'},
     'thorough': {'free bodies': 'OPEN <= 20, UPDATE <= 9, NOTIFICATION <= 7, ROUTE-REFRESH <= 8, OPERATIONAL <= 14; attribute block 3..6',
-                 'decoders': 'same sweep, size caps doubled, <= 24 sizes per decoder, all four MP_REACH/MP_UNREACH x ADD-PATH variants at every size, path budget 2500',
+                 'decoders': 'same sweep and size caps, <= 24 sizes per decoder, all four MP_REACH/MP_UNREACH x ADD-PATH variants at every size, path budget 600',
                  'unusual': 'k = 1..6, 8 symbolic; k = 64..1356 concrete'},
 }
 OUTSIDE = [
@@ -580,7 +580,7 @@ def _site(exc):
 
 # ---------------------------------------------------------------------------------------------------- free bodies
 
-BUDGET_FREE = {'quick': 3000, 'thorough': 60000}
+BUDGET_FREE = {'quick': 3000, 'thorough': 20000}
 _TIER = ['quick']
 TYPES = {'open': 1, 'update': 2, 'notification': 3, 'keepalive': 4, 'route-refresh': 5, 'operational': 6, 'unregistered': 7}
 
@@ -741,7 +741,7 @@ class Plan:
 
     def _probe(self, tier):
         th = tier == 'thorough'
-        top = self.top * 2 if th else self.top
+        top = self.top      # same caps in both tiers: thorough takes three times as many sizes below them
         tag, sess = self.variants[0]
         neg = session(**SESSIONS[sess])
         cls = {}
@@ -789,11 +789,13 @@ class Plan:
 
 
 _SPENT = {}
-BUDGET = {'quick': 120, 'thorough': 2500}
+BUDGET = {'quick': 120, 'thorough': 600}
+_PLAN_T0 = {}
 
 
-def over_budget(ctx, key, limit):
-    """at most `limit` paths per (decoder, variant, size): a decoder whose fan-out explodes (flow operators, name tables
+def over_budget(ctx, key, limit, share=None):
+    """at most `limit` paths per (decoder, variant, size) - and, as a safety net, at most `share` seconds per decoder of a
+    group so that the last decoder of a group is still reached before the unit's time limit: a decoder whose fan-out explodes (flow operators, name tables
     enumerated value by value) is cut there, the cut is a path of class budget-cut and the unit is reported TRUNCATED
     (engine.cut), never as exhausted.  The decision rides on the input `cut` so that the replay takes the same way."""
     cut = ctx.int('cut', 0, 1)
@@ -801,6 +803,10 @@ def over_budget(ctx, key, limit):
         return bool(cut)
     n = _SPENT.get(key, 0)
     over = n >= limit
+    if share is not None:
+        import time as _time
+        t0 = _PLAN_T0.setdefault(key[0], _time.time())
+        over = over or (_time.time() - t0 > share)
     ctx.assume(cut == (1 if over else 0))
     if over:
         _core.engine().cut = True
@@ -809,14 +815,14 @@ def over_budget(ctx, key, limit):
     return over
 
 
-def h_group(ctx, plans, tier):
+def h_group(ctx, plans, tier, seconds=None):
     plan = plans[0] if len(plans) == 1 else ctx.pick('decoder', plans)
     vi = 0 if len(plan.variants) == 1 else ctx.choice('variant', len(plan.variants))
     tag, sess = plan.variants[vi]
     neg = session(**SESSIONS[sess])
     sizes = plan.sizes(tier, vi)
     L = sizes[0] if len(sizes) == 1 else ctx.pick('L', sizes)
-    if over_budget(ctx, (plan.name, tag, L), BUDGET[tier]):
+    if over_budget(ctx, (plan.name, tag, L), BUDGET[tier], None if seconds is None else 0.8 * seconds / len(plans)):
         ctx.note('class', 'budget-cut:%s%s L=%d' % (plan.name, ':' + tag if tag else '', L))
         return (plan.name, tag, L, 'budget-cut')
     items = plan.make(Src(ctx), L, tag)
@@ -1329,7 +1335,7 @@ def units(tier):
     th = tier == 'thorough'
     _TIER[0] = tier
     us = []
-    T = 1500 if th else 300
+    T = 900 if th else 300
     top = {'open': (16, 20), 'update': (7, 9), 'notification': (5, 7), 'keepalive': (2, 3), 'route-refresh': (6, 8), 'operational': (10, 14), 'unregistered': (2, 3)}
     for tname in TYPES:
         n = top[tname][1 if th else 0]
@@ -1350,7 +1356,7 @@ def units(tier):
         groups.setdefault(plan.group, []).append(plan)
     for g, plans in groups.items():
         cover = tuple('reached:' + p.name for p in plans) + tuple(sorted(set(c for p in plans for c in p.cover)))
-        us.append(Unit('dec/' + g.replace(':', '/'), lambda ctx, plans=plans: h_group(ctx, plans, tier), reset=reset_state, hash_const=True,
+        us.append(Unit('dec/' + g.replace(':', '/'), lambda ctx, plans=plans: h_group(ctx, plans, tier, T), reset=reset_state, hash_const=True,
                        max_seconds=T, max_paths=100000, weight=sum(p.weight for p in plans), must_cover=cover))
     for tname in ('open', 'update', 'notification', 'keepalive', 'route-refresh', 'operational'):
         n = min(top[tname][0], 5 if th else 4)
